@@ -705,6 +705,18 @@ def make_module(I):
 
     reg("zeros", zeros)
 
+    def zeros_like(I, st, a, dtype=None):
+        """np.zeros_like(array): zeros of the same shape and element kind (float / int arrays only)"""
+        if dtype is not None or not (isinstance(a, Ref) and st.get(a).kind == "nd"):
+            raise Unsupported("np.zeros_like of a non-array / with dtype")
+        e = st.get(a)
+        kind = dtype_of(e)
+        if kind not in ("f", "i"):
+            raise Unsupported("np.zeros_like of a %s array" % kind)
+        return st.alloc(NdE(e.shape, [0 if kind == "i" else Fraction(0)] * size(e.shape)))
+
+    reg("zeros_like", zeros_like)
+
     def ones(I, st, shape, dtype=None):
         if isinstance(shape, int):
             shape = (shape,)
